@@ -83,6 +83,14 @@ def gen_pool(rng, tier, opts):
                "eps_truncate_imaginary_part": None, "born_atol": DEFAULT_ATOL}
         pool.append(rec)
         tomos.append(len(pool) - 1)
+    for shape in ([2, 2], rng.choice([[2, 3], [2, 2, 2], [3, 2]])):
+        n = 1
+        for d in shape:
+            n *= d
+        w = [rng.random() if rng.random() < 0.8 else 0.0 for _ in range(n)]
+        if sum(w) == 0:
+            w[0] = 1.0
+        pool.append({"kind": "mdist", "ps": np.array([x / sum(w) for x in w]), "shape": shape})
     for cls in ["se", "re", "fast_se", "fast_re"]:
         pool.append({"kind": "loss", "cls": cls})
     for cls in ["pgdb", "pgdb", "pgdm", "pfista"]:
@@ -148,6 +156,10 @@ class Run:
                 obj = [(int(n), np.array(p)) for n, p in r["data"]]
             elif k == "var":
                 obj = np.array(r["value"])
+            elif k == "mdist":
+                from quara.objects.multinomial_distribution import MultinomialDistribution
+
+                obj = MultinomialDistribution(np.array(r["ps"], dtype=np.float64), tuple(r["shape"]))
             else:
                 raise ValueError(k)
         finally:
@@ -169,6 +181,8 @@ class Run:
                 snap[i] = digest(W.snapshot_dataset(obj))
             elif k == "var":
                 snap[i] = digest(obj)
+            elif k == "mdist":
+                snap[i] = digest([np.array(obj.ps), list(obj.shape)])
         return snap
 
     def add_to_pool(self, recipe, live_obj):
@@ -235,6 +249,30 @@ class Run:
         if op == "warm_bb":
             c = get(st["csys"])
             return c.basis_basisconjugate(tuple(st["index"]))
+        if op == "mdist":
+            d = get(st["on"])
+            if st["name"] == "getitem":
+                a = st["args"][0]
+                return d[tuple(a) if isinstance(a, list) else a]
+            if st["name"] == "ps":
+                return d.ps
+            return getattr(d, st["name"])(*st["args"])
+        if op == "tomo_m":
+            qt = get(st["tomo"])
+            name = st["name"]
+            if name in ("calc_matA", "calc_vecB", "is_fullrank_matA", "generate_empty_estimation_obj_with_setting_info"):
+                return getattr(qt, name)()
+            if name == "num_variables":
+                return qt.num_variables
+            if name == "calc_prob_dists":
+                return qt.calc_prob_dists(get(st["obj"]))
+            if name == "calc_prob_dist":
+                return qt.calc_prob_dist(get(st["obj"]), st["i"])
+            if name == "convert_var_to_qoperation":
+                var = np.array(st["var"])
+                out = qt.convert_var_to_qoperation(var)
+                return {"out": out, "arg_after": var, "arg_before": np.array(st["var"])}
+            raise ValueError(name)
         if op == "estimate":
             return self.do_estimate(st, get)
         if op == "loss_eval":
@@ -338,7 +376,7 @@ class Run:
         if op == "mutate":
             return self.step_mutate(idx, st, sig)
         # operands must exist
-        for key in ("on", "csys", "estimator", "tomo", "dataset", "loss", "algo", "sequence"):
+        for key in ("on", "csys", "estimator", "tomo", "dataset", "loss", "algo", "sequence", "obj"):
             if key in st and st[key] is not None and not (0 <= st[key] < len(self.pool)):
                 return  # shrunk record: operand disappeared -> no-op
         for i in st.get("ids", []):
@@ -346,7 +384,7 @@ class Run:
                 return
         # make sure the live operands exist before the snapshot
         live_get = lambda i: self.build_entry(i, None, True)
-        for key in ("on", "csys", "estimator", "tomo", "dataset", "loss", "algo", "sequence"):
+        for key in ("on", "csys", "estimator", "tomo", "dataset", "loss", "algo", "sequence", "obj"):
             if key in st and st[key] is not None:
                 live_get(st[key])
         for i in st.get("ids", []):
@@ -487,7 +525,7 @@ class Run:
                 if st["table"] in self.deleted_since.get(cid, set()):
                     self.deleted_since[cid].discard(st["table"])
                     self.bump("probes", "table_deleted_then_rebuilt")
-        elif op in ("m", "modfunc", "compose", "estimate", "with_var"):
+        elif op in ("m", "modfunc", "compose", "estimate", "with_var", "tomo_m", "mdist"):
             name = st.get("name") or ""
             if any(self.deleted_since.values()) and ("sparsity" in name or "dict" in name or "proj" in name or op == "estimate"):
                 self.bump("probes", "operation_after_cache_deletion")
@@ -606,6 +644,7 @@ class Generator:
         self.w = {
             "m": 6, "with_var": rngc.choice([1, 3]), "modfunc": rngc.choice([1, 3]), "compose": 2, "tensor": rngc.choice([0.3, 1]), "cache": 0 if self.fault_free else rngc.choice([2, 5, 8]),
             "flip": 0 if self.fault_free else rngc.choice([0, 0.5, 1.5]), "estimate": rngc.choice([0.5, 2, 4]), "loss_eval": rngc.choice([0.5, 2]), "basis_write": 0.4, "copy_edit": 0.7, "rerun": 1.0, "dataset": 0.8,
+            "mdist": 0.8, "tomo_m": 1.5,
         }
         self.focus = "general" if self.fault_free else rngc.choice(["general", "general", "cache", "cache", "estimation", "projection"])
         if self.focus == "cache":
@@ -867,6 +906,51 @@ class Generator:
         nvar = {"qst": 3 if rec["para"] else 4, "povmt": 4 if rec["para"] else 8}[rec["type"]]
         return {"op": "loss_eval", "loss": l, "tomo": t, "dataset": rng.choice(ds), "loss_option": self.loss_option(self.pool[l]["cls"], rec), "var": ops.rand_var(rng, nvar, 0.3)}
 
+    def g_mdist(self):
+        rng = self.rng
+        cands = self.ids("mdist")
+        if not cands:
+            return None
+        i = rng.choice(cands)
+        shape = self.pool[i]["shape"]
+        r = rng.random()
+        if r < 0.35:
+            keep = sorted(rng.sample(range(len(shape)), rng.randint(1, len(shape))))
+            return {"op": "mdist", "on": i, "name": "marginalize", "args": [keep]}
+        if r < 0.7:
+            k = rng.randint(1, len(shape))
+            idx = sorted(rng.sample(range(len(shape)), k))
+            return {"op": "mdist", "on": i, "name": "conditionalize", "args": [idx, [rng.randrange(shape[j]) for j in idx]]}
+        if r < 0.85:
+            return {"op": "mdist", "on": i, "name": "getitem", "args": [[rng.randrange(d) for d in shape]]}
+        return {"op": "mdist", "on": i, "name": "ps", "args": []}
+
+    def g_tomo_m(self):
+        rng = self.rng
+        tomos = self.ids("tomo")
+        if not tomos:
+            return None
+        t = rng.choice(tomos)
+        rec = self.pool[t]
+        name = rng.choice(["calc_matA", "calc_vecB", "is_fullrank_matA", "num_variables", "generate_empty_estimation_obj_with_setting_info", "calc_prob_dists", "calc_prob_dists", "calc_prob_dist",
+                           "convert_var_to_qoperation"])
+        st = {"op": "tomo_m", "tomo": t, "name": name}
+        kind = {"qst": "state", "povmt": "povm", "qpt": "gate", "qmpt": "mprocess"}[rec["type"]]
+        if name in ("calc_prob_dists", "calc_prob_dist"):
+            cands = [i for i in self.ids(kind, 0) if kind != "povm" or len(self.pool[i]["vecs"]) == 2]
+            if not cands:
+                return None
+            st["obj"] = rng.choice(cands)
+            if name == "calc_prob_dist":
+                n_sched = {"qst": len(rec["testers"]), "povmt": len(rec["testers"]), "qpt": 12, "qmpt": 12}[rec["type"]]
+                st["i"] = rng.randrange(n_sched)
+        if name == "convert_var_to_qoperation":
+            nvar = {"qst": 3 if rec["para"] else 4, "povmt": 4 if rec["para"] else 8, "qpt": 12 if rec["para"] else 16}.get(rec["type"])
+            if nvar is None:
+                return None
+            st["var"] = ops.rand_var(rng, nvar, 0.3)
+        return st
+
     def g_basis_write(self):
         rng = self.rng
         return {"op": "basis_write", "csys": rng.choice([0, 0, 1]), "which": rng.choice(["basis", "basis_list", "esys", "comp"]), "i": rng.randrange(4)}
@@ -876,7 +960,7 @@ class Generator:
         return {"op": "copy_edit", "on": rng.choice([j for j, r in enumerate(self.pool) if r["kind"] in QOP_KINDS])}
 
     def g_rerun(self):
-        cands = [s for s in self.history if s["op"] in ("m", "with_var", "modfunc", "compose", "estimate", "loss_eval")]
+        cands = [s for s in self.history if s["op"] in ("m", "with_var", "modfunc", "compose", "estimate", "loss_eval", "tomo_m", "mdist")]
         if not cands:
             return None
         return copy.deepcopy(self.rng.choice(cands))
